@@ -2,30 +2,40 @@ package main
 
 import (
 	"fmt"
-	"os"
 	"time"
 
-	"github.com/grailbio/base/errors"
-	"github.com/grailbio/bigslice/exec"
 	"verifharness/prog"
 )
 
-func main() {
-	prog.MakeTemp = func(msg string) error { return errors.E(errors.Temporary, msg) }
-	exec.ProbationTimeout = 200 * time.Millisecond
-	p := prog.Prog{Nodes: []prog.Node{
-		{Op: "readerfunc", N: 2, Types: []string{"i", "i"}, A: 10, B: 1, Fail: &prog.Fail{Mode: "temp", Shard: -1, Row: 2}},
-	}}
-	if len(os.Args) > 1 {
-		p.Nodes = append(p.Nodes, prog.Node{Op: "reduce", In: []int{0}, Comb: "sum"})
+func counts(o prog.Obs) []int {
+	var c []int
+	for _, s := range o.Shards {
+		c = append(c, len(s))
 	}
-	for _, cfg := range []prog.Cfg{{Kind: "local", Parallelism: 2}, {Kind: "bigmachine", Parallelism: 4, Procs: 2}} {
+	return c
+}
+
+func main() {
+	cols := [][]int64{make([]int64, 40), make([]int64, 40)}
+	for i := range cols[0] {
+		cols[0][i], cols[1][i] = int64(i%7), int64(i)
+	}
+	base := prog.Prog{Nodes: []prog.Node{
+		{Op: "const", N: 4, Types: []string{"i", "i"}, Cols: cols},
+		{Op: "reshuffle", In: []int{0}},
+	}}
+	arg := prog.Node{Op: "arg", N: 4, Types: []string{"i", "i"}, N2: 1}
+	repart := prog.Prog{Nodes: []prog.Node{arg, {Op: "repartition", In: []int{0}, Exprs: []prog.Expr{{K: "const", A: 1}}}}}
+	resh := prog.Prog{Nodes: []prog.Node{arg, {Op: "reshuffle", In: []int{0}}}}
+	for _, cfg := range []prog.Cfg{{Kind: "local", Parallelism: 4}, {Kind: "bigmachine", Parallelism: 4, Procs: 2}, {Kind: "bigmachine", Parallelism: 1, Procs: 1}, {Kind: "bigmachine", Parallelism: 8, Procs: 1}} {
 		s := prog.Start(cfg)
-		o, _ := prog.RunOnce(s, p, "", 60*time.Second)
-		msg := o.ErrMsg
-		if len(msg) > 150 {
-			msg = msg[:150]
+		o, res := prog.RunOnce(s, base, "", 30*time.Second)
+		fmt.Println(cfg, "base", o.Err, counts(o))
+		for i := 0; i < 3; i++ {
+			o1, _ := prog.RunArgOnce(s, repart, res, 30*time.Second)
+			fmt.Println("   repartition(R)", o1.Err, counts(o1))
+			o2, _ := prog.RunArgOnce(s, resh, res, 30*time.Second)
+			fmt.Println("   reshuffle(R)  ", o2.Err, counts(o2))
 		}
-		fmt.Println(cfg, o.Err, o.Fires, o.Wall, msg)
 	}
 }
